@@ -35,7 +35,7 @@ PROFILE = {
     "n_min": 3, "n_max": 10, "n_long": 20, "p_long": 0.05, "c_min": 1, "c_max": 3, "p_bar": 1.0, "extras_max": 4,
     "extra_kinds": ["nbbo", "custom"], "p_sparse_grid": 0.0, "p_folds": 0.0, "p_markov": 0.0, "p_warmup": 0.0,
     "delays": [0, 0, 1, 2, 3], "contract_kinds": ["ETF", "spot", "margined"], "p_with_cash": 0.4,
-    "box_bounds": [(-1.0, 1.0), (0.0, 1.0), (-0.5, 1.5), (-2.0, 2.0)], "margins": [0.0, 0.0, 0.02],
+    "box_bounds": [(-1.0, 1.0), (0.0, 1.0), (-0.5, 1.5), (-2.0, 2.0)], "margins": [0.0, 0.0, 0.02, 0.05, 0.125],
     "latencies": [0, 0, 10 ** 6],
 }
 
@@ -96,6 +96,7 @@ def generate(rng, i):
     nsteps = max(len(steps) - 1, 0)
     script = [{"op": "reset", "env": 0, "fold": None, "np_seed": rng.randrange(2 ** 31)}]
     inject_at = rng.randrange(nsteps) if nsteps and rng.random() < 0.75 else None
+    prev_v = None
     for k in range(nsteps):
         if k == inject_at:
             if sp["type"] == "box":
@@ -110,7 +111,12 @@ def generate(rng, i):
             idx = rng.randrange(len(sp["allocations"]))
             a = idx if rng.random() < 0.7 else {"as": "npint", "v": idx}
         else:
-            if sp["as_weights"]:
+            if sp["as_weights"] and sp.get("margin") and prev_v is not None and rng.random() < 0.35:
+                # the previous weights with one entry moved by a little more than the no-trade band
+                v = list(prev_v)
+                j = rng.randrange(n)
+                v[j] = min(sp["high"], max(sp["low"], v[j] + rng.choice([1, -1]) * sp["margin"] * rng.uniform(1.05, 1.45)))
+            elif sp["as_weights"]:
                 v = gen_epi.gen_action(rng, env)
                 if rng.random() < 0.1:
                     j = rng.randrange(n)
@@ -118,6 +124,7 @@ def generate(rng, i):
                     v[j] = sp["high"] if rng.random() < 0.5 and sp["high"] <= 1.0 else (sp["low"] if sp["low"] >= -1.0 else 0.0)
             else:
                 v = [float(rng.choice([0, 1, 2, -1, 3, 0.5])) for _ in range(n)]
+            prev_v = v
             r = rng.random()
             a = v if r < 0.4 else ({"as": "list", "v": v} if r < 0.6 else ({"as": "f32", "v": v} if r < 0.8 else {"as": "f64", "v": v}))
         script.append({"op": "step", "env": 0, "action": a})
@@ -381,6 +388,31 @@ def execute(scenario):
                 for sym, q in want.items():
                     if abs(reb["post"]["nr"].get(sym, 0.0) - q) > 1e-9 * max(1.0, abs(q)):
                         violate("executed_weights", "step {}: position of {} is {} but the action asks for {} contracts".format(k, sym, reb["post"]["nr"].get(sym, 0.0), q), op=k, kind="nr")
+                        break
+            if sp.get("margin") and sp.get("fractional", True) and reb["post"] is not None and reb["pre"] is not None and not violations:
+                # a space with a no-trade band: an in-space action whose change in a contract is clearly outside the band
+                # (weighed at the account's net liquidation value) is carried out - the position ends at the target
+                from fractions import Fraction as F
+                thr = F(sp["margin"])
+                nlv = F(reb["pre"]["nlv"])
+                for sym, w in want.items():
+                    bid, ask = ex[0]["books"].get(sym, (None, None))
+                    if w == 0 or bid is None or bid != bid or ask != ask or nlv <= 0:
+                        continue
+                    mult = F(float(epicheck_params(h, sym)[0]))
+                    pos = F(ex[0]["hold_before"].get(sym, 0.0))
+                    target = F(w) * nlv / F(ask if w > 0 else bid) / mult if sp.get("as_weights", True) else F(w)
+                    imb = target - pos
+                    if imb == 0:
+                        continue
+                    iw = mult * imb * F(ask if imb > 0 else bid) / nlv
+                    if abs(iw) < thr * F(101, 100) + F(1, 10 ** 9):
+                        continue
+                    probe("change_clearly_outside_the_no_trade_band")
+                    after = reb["post"]["nr"].get(sym, 0.0)
+                    if abs(F(after) - target) > F(1, 10 ** 7) * max(1, abs(target)) and abs(F(after) - pos) <= F(1, 10 ** 9) * max(1, abs(pos)):
+                        violate("executed_weights", "step {}: the action moves {} from {} to {} contracts ({} of NLV, band {}) but the position was left unchanged".format(
+                            k, sym, float(pos), float(target), float(iw), float(thr)), op=k, kind="outside_band_not_executed")
                         break
             if violations:
                 break
